@@ -1,4 +1,4 @@
-\* exhaustive: 2 keys, initial objects absent|T1; streams len 1 rich, len 2 rich (all forms/modifiers/faults pairwise), len 3 order-level documents; ~185 k cases
+\* exhaustive: 2 keys, initial objects absent|T1; streams len 1 rich, len 2 rich (all forms/modifiers/faults pairwise), len 3 order-level documents; stray closing brackets (`]`, `}` at len 1 and 2, `}` at len 3) as stream elements; ~220 k states
 SPECIFICATION Spec
 CONSTANTS
   Keys = {"a", "b"}
